@@ -23,8 +23,8 @@ ASSUMPTIONS = ["host patterns are judged by hand-written predicates per listed p
 PREFIXES = ["", "/a", "/a/b", "/ab", "/b", "/é"]
 PATHS = ["", "/", "/a", "/a/", "/ab", "/abc", "/a/b", "/a/b/", "/a/b/c", "/a/bc", "/b/a", "a", "/é", "/é/ü", "/éa", "/a//b", "/a/x\ny", "/x\n"]
 ROOTS = ["", "/r", "/r/", "/"]
-HOST_PATTERNS = [r"a\.com", r"(www\.)?a\.com", r"a.com", r".*", r"a\.com|b\.com", r"caf.\.com"]
-HOSTS = ["a.com", "www.a.com", "xa.com", "aXcom", "a.com.evil", "a.com:80", "A.COM", "", None, "a.com\n", "b.com", "b.com.evil", "www.a.comx", "caf\xe9.com", "caf\xc3\xa9.com"]
+HOST_PATTERNS = [r"a\.com", r"(www\.)?a\.com", r"a.com", r".*", r"a\.com|b\.com", r"caf.\.com", r"(\w+)\.\1\.com", r"(?P<t>x)?a\.com(?(t)y|)"]  # the last two: a numbered back-reference, a named group with a conditional
+HOSTS = ["eu.eu.com", "eu.us.com", "xa.comy", "xa.com", "a.comy", "a.com", "www.a.com", "aXcom", "a.com.evil", "a.com:80", "A.COM", "", None, "a.com\n", "b.com", "b.com.evil", "www.a.comx", "caf\xe9.com", "caf\xc3\xa9.com"]
 
 
 def host_ref(pattern, h):
@@ -40,6 +40,11 @@ def host_ref(pattern, h):
         return h in ("a.com", "b.com")
     if pattern == r"caf.\.com":
         return len(h) == 8 and h[:3] == "caf" and h[4:] == ".com" and h[3] != "\n"
+    if pattern == r"(\w+)\.\1\.com":
+        parts = h.split(".")
+        return len(parts) == 3 and parts[2] == "com" and parts[0] == parts[1] and parts[0] != "" and all(c.isalnum() or c == "_" for c in parts[0])
+    if pattern == r"(?P<t>x)?a\.com(?(t)y|)":
+        return h in ("xa.comy", "a.com")
     raise KeyError(pattern)
 
 
